@@ -163,7 +163,7 @@ pub fn draw_config(tape: &mut Tape, flavor: Flavor, max_deliveries: usize) -> Co
             chunks_until_end = Some(k as u64);
         }
     }
-    if chunks_until_end.is_none() && tape.draw(4) == 3 {
+    if chunks_until_end.is_none() && flavor != Flavor::FullRotation && tape.draw(4) == 3 {
         // the history also ends some chunks after the scripted action
         chunks_until_end = Some(k as u64 + tape.draw(20));
     }
@@ -678,7 +678,7 @@ impl Check for C18 {
     fn run(&self, p: &Params, tape: &mut Tape, ctx: &mut Ctx) {
         let flavor = flavor_of(p.tier, p.section);
         let max_deliveries = match flavor {
-            Flavor::FullRotation => 999 * 55 + 20,
+            Flavor::FullRotation => 1005 * 55,
             Flavor::WrapFocus => 70,
             _ => match tape.weighted(&[6, 3, 1]) {
                 0 => 30,
@@ -690,8 +690,11 @@ impl Check for C18 {
         let seed = tape.seed();
         ctx.ev("config", &[cfg.v0 as u64, cfg.k0 as u64, cfg.older as u64], || format!("{:?}", cfg));
         let (deliveries, _stats, _gens) = run_session(tape, ctx, &cfg, seed, true);
-        if flavor == Flavor::FullRotation && deliveries.len() >= 999 * 55 && !ctx.failed() {
+        if flavor == Flavor::FullRotation && ctx.counters.get("volume_boundary_crossed").copied().unwrap_or(0) >= 1000 && !ctx.failed() {
+            // every one of the 999 directories was entered through a volume boundary, and the
+            // start directory was entered a second time (its first generation replaced)
             ctx.count("full_rotation_completed");
         }
+        let _ = deliveries;
     }
 }
